@@ -23,6 +23,11 @@ Shapes == {"generic_contract", "interface_assoc"}
 QualifiedNames == Words \cup {"T", "E", "C", "D", "Q"}
 Configs == [param : ParamNames, shape : Shapes] \cup [param : ContractOnlyWords, shape : {"generic_contract"}]
            \cup [param : QualifiedNames, shape : {"generic_qualified"}]
+           \* "generic_custom_query": the parameter is the contract's custom *query* type, and an exec handler is called like it
+           \* (its variant has the parameter's name)
+           \* (not `Contract`: an exec handler called `contract` collides with the accessor of that name the generated helpers call --
+           \*  a restriction on handler names, DESIGN 14.4, not a matter of parameter names)
+           \cup [param : QualifiedNames \ {"Contract"}, shape : {"generic_custom_query"}]
 
 VARIABLES cfg, stage      \* stage: "source" | "built" | "ran"
 hvars == <<cfg, stage>>
